@@ -671,7 +671,7 @@ class Exec:
         if isinstance(ty, VecTy) and s.mod.bits(ty.el) % 8 == 0:
             es = s.mod.size(ty.el)
             return [s.load(mem, Ptr(p.obj, p.off + i * es), ty.el) for i in range(ty.n)]
-        n = s.mod.size(ty)
+        n = (ty.n + 7) // 8 if isinstance(ty, IntTy) else s.mod.size(ty)     # store size: an i24/i48 load touches 3/6 bytes, not its 4/8-byte alloc size
         cells = mem.read(p.obj, p.off, n)
         c0 = cells[0]
         if c0 is not None and isinstance(c0[0], tuple):
@@ -874,7 +874,10 @@ class Exec:
                 s.oblige('domain', b.r == 0, 'real-mode division by zero'); return RV(n, a.r / b.r)
             raise Unsupported(op + ' real')
         f = {'fadd': z3.fpAdd, 'fsub': z3.fpSub, 'fmul': z3.fpMul, 'fdiv': z3.fpDiv}.get(op)
-        if f: return FV(n, fp=f(RNE, a.fp, b.fp))
+        if f:
+            x, y = a.fp, b.fp
+            if op in ('fadd', 'fmul') and x.get_id() > y.get_id(): x, y = y, x     # IEEE add/mul are commutative (NaN payloads are not modelled): canonical operand order
+            return FV(n, fp=f(RNE, x, y))
         if op == 'frem': return FV(n, fp=s.fmod_model(a.fp, b.fp))
         raise Unsupported(op)
     def icmp(s, pred, ty, a, b):
@@ -896,6 +899,9 @@ class Exec:
             r = {'eq': x == y, 'ne': x != y, 'gt': x > y, 'ge': x >= y, 'lt': x < y, 'le': x <= y, 'ord': z3.BoolVal(True), 'uno': z3.BoolVal(False)}[p]
             return c2b(r)
         x, y = a.fp, b.fp
+        if pred[1:] in ('gt', 'ge'): x, y = y, x; pred = pred[0] + {'gt': 'lt', 'ge': 'le'}[pred[1:]]      # canonical: a > b is b < a
+        elif pred[1:] in ('eq', 'ne') or pred in ('ord', 'uno'):
+            if x.get_id() > y.get_id(): x, y = y, x
         uno = z3.Or(z3.fpIsNaN(x), z3.fpIsNaN(y))
         if pred == 'ord': return c2b(z3.Not(uno))
         if pred == 'uno': return c2b(uno)
@@ -934,8 +940,9 @@ class Exec:
                 return z3.Int2BV(tr, n)
             x = v.fp; srt = FSORT[sty.n]
             if op == 'fptosi':
-                lo = z3.FPVal(-(2.0 ** (n - 1)) - (1.0 if n < 24 else 0), srt); hi = z3.FPVal(2.0 ** (n - 1), srt)
-                bad = z3.Or(z3.fpIsNaN(x), z3.Not(z3.And(z3.fpGT(x, lo) if n < 24 else z3.fpGEQ(x, z3.FPVal(-(2.0 ** (n - 1)), srt)), z3.fpLT(x, hi))))
+                ex_lo = n <= (24 if sty.n == 32 else 53)      # -(2^(n-1))-1 is exactly representable in the source format (x in (-(2^(n-1))-1, -(2^(n-1))) truncates in range)
+                lo = z3.FPVal(-(2.0 ** (n - 1)) - (1.0 if ex_lo else 0), srt); hi = z3.FPVal(2.0 ** (n - 1), srt)
+                bad = z3.Or(z3.fpIsNaN(x), z3.Not(z3.And(z3.fpGT(x, lo) if ex_lo else z3.fpGEQ(x, z3.FPVal(-(2.0 ** (n - 1)), srt)), z3.fpLT(x, hi))))
                 r = z3.fpToSBV(RTZ, x, z3.BitVecSort(n))
             else:
                 hi = z3.FPVal(2.0 ** n, srt)
